@@ -238,6 +238,9 @@ def observe(spec, tree, cv, endian, tails, sd):
                 else:
                     rec["exc"] = val
                 obs["reads"].append(rec)
+                if rec["st"] != "ok" and "ImplTimeout" in rec["exc"]:
+                    obs["timeout"] = True      # a looping implementation: one observation is enough
+                    return obs
     return obs
 
 
@@ -325,10 +328,14 @@ def replay_table(rec):
         elif size == -3:
             viols.append(("calc_size() returned neither a size nor None", {"kind": "calc_size-type", "top": base["k"]},
                           {"tree": vt, "got": exc}))
+        timeouts = 0
         for row in rec["rows"]:
             for endian, stk, bk in ((">", "st", "b"), ("<", "lst", "lb")):
+                if timeouts >= 2:
+                    break
                 exp_st, exp_b = row[stk], bytes(row[bk])
                 obs = observe(spec, vt, row["v"], endian, TAILS, rec["sd"])
+                timeouts += 1 if obs.get("timeout") else 0
                 n_eval += len(obs["writes"]) + len(obs["reads"])
                 if exp_st == "ok":
                     nontrivial += 1
@@ -912,6 +919,7 @@ def _gen_cases(seed, n, max_depth):
             tails = [b""] + [bytes(rng.choice([0, 1, 255, rng.randrange(256)]) for _ in range(rng.choice([1, 2, 5])))
                              for _ in range(2)]
             obs = observe(spec, tree, cv, endian, tails, sd)
+            obs.pop("timeout", None)
             if any(w["st"] == "shape" for w in obs["writes"]):
                 continue
             ev = {"ev": "RT", "t": tree, "v": cv, "e": endian, "size": size if size >= -2 else -2,
